@@ -86,6 +86,12 @@ class C07:
                 state['pairs'].append((sh, thh, tk, sk))
             state['full'] = {}
             state['derived'] = []
+            # a larger image used for selection-only operations (no solver
+            # calls), so that sparse subsets of big images are also drawn
+            state['big'] = b.emit('image', dict(
+                img_args, shape=big_shape, seed=img_args['seed'] + 1),
+                store='det', meta={'kind': 'big'})
+        big_shape = [rng.randint(16, 40), rng.randint(16, 40)]
         setup()
         seeds = [rng.randrange(1000) for _ in range(2)]
         nops = rng.randint(10, 30)
@@ -119,7 +125,7 @@ class C07:
             kind = rng.choice(['holo', 'holo', 'field', 'intensity'])
             route = rng.choice(['full', 'points', 'subset_calc',
                                 'calc_subset', 'crop_calc', 'calc_crop',
-                                'subset_only', 'subset_none'])
+                                'subset_only', 'subset_only', 'subset_none'])
             img = state['img']
             oi = 1 if (use_alt and rng.random() < 0.4) else 0
             if (pi, kind, oi) not in state['full'] or route == 'full':
@@ -142,6 +148,7 @@ class C07:
                               'return_selection': rng.random() < 0.3},
                              store='sub',
                              tags={'rng_state': True, 'subset': True,
+                                   'ref': seed is not None,
                                    'rng_dependent': seed is None})
                 calc(sub, pi, kind, extra_tags={'route': 'subset'}, oi=oi)
             elif route == 'calc_subset':
@@ -166,9 +173,15 @@ class C07:
                                         'shape': s},
                            tags={'route': 'calc_crop', 'pair': pi})
             elif route == 'subset_only':
+                if rng.random() < 0.7:
+                    img = state['big']
+                    btot = big_shape[0] * big_shape[1]
+                    k = rng.choice([rng.randint(1, max(1, btot // 16)),
+                                    rng.randint(1, btot)])
                 b.emit('make_subset', {'det': img, 'pixels': k, 'seed': seed,
                                        'return_selection': True},
                        tags={'rng_state': True, 'subset': True,
+                             'ref': seed is not None,
                              'rng_dependent': seed is None})
             else:
                 b.emit('make_subset', {'det': img, 'pixels': None,
@@ -365,45 +378,17 @@ class C07:
         ny = len(sp['coords']['y']['values'])
         tot = nx * ny
         ex.stats['oracle_sim'] += 1
-        # RNG seam: the documented draw
-        calls = [c for c in rec.get('rng_calls', []) if c[0] == 'choice']
-        if len(calls) != 1:
-            ex.add(violation('C07.rng', ev['id'],
-                             'make_subset_data made %d choice() calls'
-                             % len(calls), sig='C07.rng:calls'))
-            return
-        _, a, kw = calls[0]
-        kw = dict(kw)
-        rep = kw.get('replace', a[2] if len(a) > 2 else True)
-        if rep is not False or a[0] != tot or a[1] != k:
-            ex.add(violation(
-                'C07.rng', ev['id'],
-                'pixel draw was choice%r %r, expected (%d, %d, replace=False)'
-                % (a, kw, tot, k), sig='C07.rng:args'))
-            return
-        seeds = [c for c in rec.get('rng_calls', []) if c[0] == 'seed']
-        if seed is not None and (len(seeds) != 1 or seeds[0][1] != (seed,)):
-            ex.add(violation('C07.rng', ev['id'],
-                             'seed=%r was not applied (seed calls: %r)' % (
-                                 seed, seeds), sig='C07.rng:seed'))
-            return
-        if seed is None and seeds:
-            ex.add(violation('C07.rng', ev['id'],
-                             'unseeded subset reseeded the global RNG',
-                             sig='C07.rng:seed'))
-            return
-        # expected selection from the recorded generator state
-        if seed is not None:
-            rs = np.random.RandomState(seed)
-        else:
-            rs = np.random.RandomState()
-            rs.set_state(rec['rng_state_before'])
-        expect_sel = rs.choice(tot, k, replace=False)
+        # The pixel draw is *observed* at the RNG seam for the evidence
+        # (how the library draws is its own business); the oracles below are
+        # behavioural: distinct pixels, values / coordinates / metadata kept,
+        # and - for a seed - the same selection at every position of every
+        # history (pristine-node refinement + repeats inside the run).
         xc = ex.stats.setdefault('extra', {})
         key = 'subset_seeded' if seed is not None else 'subset_unseeded'
         xc[key] = xc.get(key, 0) + 1
-        if len(set(expect_sel.tolist())) != k:
-            return
+        if any(c[0] == 'choice' for c in rec.get('rng_calls', [])):
+            xc['draws_observed_at_seam'] = \
+                xc.get('draws_observed_at_seam', 0) + 1
         pts, vals, rest, names = O.as_points(p)
         spts, svals, srest, _ = O.as_points(sp)
         # source flat order is (x, y, z) stacked: index = ix*ny + iy
@@ -421,21 +406,19 @@ class C07:
                              'subset contains a pixel twice',
                              sig='C07.subset:distinct'))
             return
-        xs = np.asarray(sp['coords']['x']['values'], dtype=float)
-        ys = np.asarray(sp['coords']['y']['values'], dtype=float)
-        zs = np.asarray(sp['coords']['z']['values'],
-                        dtype=float).reshape(-1)
-        exp_keys = [(float(xs[s // ny]), float(ys[s % ny]), float(zs[0]))
-                    for s in expect_sel.tolist()]
-        if keys != exp_keys:
-            ex.add(violation(
-                'C07.subset', ev['id'],
-                'selected pixels are not the documented draw for %s' % (
-                    'seed=%r' % seed if seed is not None
-                    else 'the generator state at the call'),
-                sig='C07.subset:' + ('seeded' if seed is not None
-                                     else 'unseeded')))
-            return
+        if seed is not None:
+            # reproducible for a given seed: same selection as any earlier
+            # subset of the same image with the same (seed, size)
+            memo = ex.__dict__.setdefault('_subset_memo', {})
+            mk = (str(ra['det'].get('ref')), seed, k)
+            if mk in memo and memo[mk][1] != keys:
+                ex.add(violation(
+                    'C07.subset', ev['id'],
+                    'seed=%r gave a different selection of %d pixels than '
+                    'at op %s of the same session' % (seed, k, memo[mk][0]),
+                    sig='C07.subset:seeded'))
+                return
+            memo.setdefault(mk, (ev['id'], keys))
         for i, kk in enumerate(keys):
             if kk not in srcmap or \
                     np.asarray(vals[i]).tobytes() != \
@@ -446,11 +429,19 @@ class C07:
                                  sig='C07.subset:value'))
                 return
         sel = (rec.get('extra') or {}).get('selection')
-        if sel is not None and sel.tolist() != expect_sel.tolist():
-            ex.add(violation('C07.subset', ev['id'],
-                             'returned selection differs from the draw',
-                             sig='C07.subset:selection'))
-            return
+        if sel is not None:
+            xs = np.asarray(sp['coords']['x']['values'], dtype=float)
+            ys = np.asarray(sp['coords']['y']['values'], dtype=float)
+            zs = np.asarray(sp['coords']['z']['values'],
+                            dtype=float).reshape(-1)
+            sel_keys = [(float(xs[s_ // ny]), float(ys[s_ % ny]),
+                         float(zs[0])) for s_ in np.asarray(sel).tolist()]
+            if sel_keys != keys:
+                ex.add(violation('C07.subset', ev['id'],
+                                 'returned selection does not index the '
+                                 'selected pixels',
+                                 sig='C07.subset:selection'))
+                return
         # name, metadata, original axes
         if p.get('name') != sp.get('name'):
             ex.add(violation('C07.subset', ev['id'], 'name not kept',
